@@ -93,9 +93,14 @@ def run(tier, seed):
             rng.shuffle(order)
             for i in range(0, len(order), 5):
                 chunk = order[i:i + 5]
-                fields = [T.StructField("col %d/%s" % (j, rng.choice(["a", "Ω", "x.y", "1"])), dt, rng.random() < 0.5)
+                fields = [T.StructField("col %d/%s" % (j, rng.choice(["a", "Ω", "x.y", "1", "tick`name", "`q`", "`", "a b", "s`.`x", "x``y"])), dt, rng.random() < 0.5)
                           for j, dt in enumerate(chunk)]
                 frames.append(spark.createDataFrame([], T.StructType(fields)))
+        # names that could be mistaken for a path into a sibling struct, or that need escaping
+        frames.append(spark.createDataFrame([], T.StructType([
+            T.StructField("s", T.StructType([T.StructField("x", T.StringType())])),
+            T.StructField("s.x", T.DoubleType()), T.StructField("s`.`x", T.LongType()), T.StructField("`s`", T.BooleanType()),
+            T.StructField("`", T.DateType()), T.StructField("", T.TimestampType()) if False else T.StructField(" ", T.TimestampType())])))
         # non-empty frames
         import datetime
         import decimal
